@@ -1296,6 +1296,8 @@ def run(chk, cases=None):
     if bad and not found_concrete:
         rec, _ = judge(chk, cases[bad[0]], outs[bad[0]])
         chk.report(rec, no_failing_input=True)
+    from props import c03_tie  # source tie: the translated _string_matching(return_mask=True) interpreted in Coq on this run's cases
+    c03_tie.source_tie(chk, cases, outs)
 
 
 def replay(chk, path):
